@@ -902,5 +902,17 @@ PROPS["C08"]["explanation"] += " (SELFCMP) see C13: the same-file guard of Vinse
 PROPS["C02"]["rules"] = PROPS["C02"]["rules"] + [rules_dd.rule_contiguous_fallback_excludes_external]
 PROPS["C02"]["explanation"] += " (EXTNOTHERE) a data-information routine with a contiguous fallback sets the external storage kind aside first."
 
+# round 15, second batch
+PROPS["C05"]["rules"] = PROPS["C05"]["rules"] + [rules_coders.rule_refill_moves_block_offset, rules_limits.rule_zero_length_is_rest]
+PROPS["C05"]["explanation"] += " (REFILLADV) every refill of the bit buffer settles block_offset in the same block. (ZEROREST) a read length of 0 is translated into the rest from the current position."
+PROPS["C01"]["rules"] = PROPS["C01"]["rules"] + [rules_limits.rule_zero_length_is_rest, rules_errors.rule_dirty_bits_independent, rules_dd.rule_reload_after_setlength]
+PROPS["C01"]["explanation"] += " (ZEROREST) see C05. (DIRTYBITS) the tests of the file record's dirty bits are independent ifs. (RELOAD) a routine that keeps the descriptor in locals reads it again after Hsetlength."
+PROPS["C02"]["rules"] = PROPS["C02"]["rules"] + [rules_errors.rule_dirty_bits_independent, rules_errors.rule_sync_before_cache_off, rules_dd.rule_diskblock_moveto]
+PROPS["C02"]["explanation"] += " (DIRTYBITS) see C01. (SYNCFIRST) HIsync is called before the caching state is switched off. (MOVETO) a disk block reserved without positioning the stream is not written with a bare HP_write."
+PROPS["C03"]["rules"] = PROPS["C03"]["rules"] + [rules_sd.rule_fill_mode_cleared_unconditionally]
+PROPS["C03"]["explanation"] += " (FILLMODE) ncsetfill clears NC_NOFILL whether or not updates are pending."
+PROPS["C17"]["rules"] = PROPS["C17"]["rules"] + [rules_dd.rule_open_ignores_physical_size, rules_dd.rule_new_block_header_nil]
+PROPS["C17"]["explanation"] += " (OPENSIZE) HTPstart does not consult the physical size of the file. (NEWBLOCKNIL) the header written for a new descriptor block names no successor."
+
 NOT_APPLICABLE = {}
 
